@@ -525,6 +525,7 @@ class Materialiser:
         self.holder_buf = holder_buf
         self.foreign = 0
         self.aliased = 0
+        self.twin = False
 
     def _obj(self, k):
         if k >= len(self.objs) or self.objs[k] is None or not self.objs[k].alive:
@@ -571,6 +572,13 @@ class Materialiser:
             if "obj" in spec and isinstance(spec, dict) and set(spec) == {"obj"}:
                 o = self._obj(spec["obj"])
                 if o.t != ty["to"]:
+                    a, b = schema[o.t], schema[ty["to"]]
+                    if a["k"] == "array" and b["k"] == "array" and a["name"] == b["name"] and a["shape"] == b["shape"] and a["item"] == b["item"] and schema[a["item"]]["k"] == "sc":
+                        # an array object of ANOTHER class that merely has the same generated name (the name
+                        # does not spell the axis order): not the referred type, hence data for a new,
+                        # independent object of the referred type with the same values
+                        self.twin = True
+                        return o.handle(), RefLeaf(ArrayNode(ty["to"], o.node.shape, list(o.node.items)))
                     raise KeyError("type mismatch")
                 if o.bufid == self.holder_buf:
                     self.aliased += 1
